@@ -8,6 +8,7 @@ import (
 	"sort"
 	"strings"
 	"syscall"
+	"time"
 
 	"verif/core"
 	"verif/lab/srvlab"
@@ -572,6 +573,49 @@ func c18Run(ctx *core.Ctx, family string, dotu bool, thorough bool, spelling str
 					rw.c.Hangup()
 				}
 			}
+		}
+	}
+	if (family == "create" || family == "mixed") && dotu {
+		// a name is confined when it is used, not only when the request arrived: a hard-link create waits for the fid
+		// it links (busy in a blocked open of a named pipe) while the directory fid it was issued on is renamed
+		// nearer to the root by another request of the same (hostile) client; then the wait ends
+		for round := 0; round < 3 && !broken; round++ {
+			what = fmt.Sprintf("hard-link create racing with a rename of its directory fid (round %d)", round)
+			dir := fmt.Sprintf("a/b/race%d", round)
+			_ = os.MkdirAll(filepath.Join(sb.root, dir), 0o755)
+			pipe := filepath.Join(sb.root, fmt.Sprintf("pipe%d", round))
+			_ = syscall.Mkfifo(pipe, 0o644)
+			rw := open()
+			if rw == nil || !attachRoot(rw) {
+				res.Inconclusive = "c18: cannot attach"
+				return res
+			}
+			res.Evals++
+			c := rw.c
+			rw.rpc(&wire.Msg{Type: wire.Twalk, Fid: 0, Newfid: 30, Wname: []string{filepath.Base(pipe)}})
+			rw.rpc(&wire.Msg{Type: wire.Twalk, Fid: 0, Newfid: 31, Wname: split(dir)})
+			_ = c.Send(&wire.Msg{Type: wire.Topen, Tag: 900, Fid: 30, Mode: 0}) // blocks in open(2): nobody writes to the pipe yet
+			time.Sleep(3 * time.Millisecond)
+			// three levels up from a/b/raceN is the root: inside; after the rename to /rN the same name is S/mid/…: outside
+			_ = c.Send(&wire.Msg{Type: wire.Tcreate, Tag: 901, Fid: 31, Name: "../../../made-by-link", Perm: 0x01000000 | 0o644, Mode: 0, Ext: "30"})
+			time.Sleep(3 * time.Millisecond)
+			st := noTouch()
+			st.Name = fmt.Sprintf("/r%d", round)
+			_ = c.Send(&wire.Msg{Type: wire.Twstat, Tag: 902, Fid: 31, Stat: st})
+			c.WaitTag(902, 2*time.Second)
+			// the other end of the pipe: the blocked open returns, the fid is free, the create goes on
+			if wf, err := os.OpenFile(pipe, os.O_WRONLY|syscall.O_NONBLOCK, 0); err == nil {
+				c.WaitTag(900, 2*time.Second)
+				c.WaitTag(901, 2*time.Second)
+				wf.Close()
+			} else {
+				c.WaitTag(901, 300*time.Millisecond)
+			}
+			checkOutside("create-link-race")
+			res.Sig(fmt.Sprintf("link-race|%v|%d", dotu, round))
+			c.Hangup()
+			_ = os.Remove(pipe)
+			_ = os.Remove(filepath.Join(sb.root, "made-by-link"))
 		}
 	}
 	res.Count("canaries", int64(len(sb.tokens)))
